@@ -17,11 +17,11 @@ import (
 
 type C20Case struct {
 	SP      h.SPConfig `json:"sp"`
-	Kind    string     `json:"kind"`    // response | LogoutResponse
-	Source  string     `json:"source"`  // genuine | shaped
-	Shapes  []string   `json:"shapes"`  // attacker-shaped root features applied
-	Prolog  string     `json:"prolog"`  // raw text before the root
-	Epilog  string     `json:"epilog"`  // raw text after the root
+	Kind    string     `json:"kind"`   // response | LogoutResponse
+	Source  string     `json:"source"` // genuine | shaped
+	Shapes  []string   `json:"shapes"` // attacker-shaped root features applied
+	Prolog  string     `json:"prolog"` // raw text before the root
+	Epilog  string     `json:"epilog"` // raw text after the root
 	Encoded string     `json:"encoded"`
 }
 
